@@ -37,6 +37,9 @@ func runGW(suite, tier string, seed uint64, out string, only int, trace bool, co
 		if tier == "thorough" {
 			nh = 3000
 		}
+		if p.mutatePct > 0 {
+			nh *= 8 // no model comparison: histories are cheap
+		}
 		if count > 0 {
 			nh = count
 		}
@@ -85,7 +88,7 @@ func runGW(suite, tier string, seed uint64, out string, only int, trace bool, co
 				}
 				res.Samples = append(res.Samples, strings.Join(sb, " ; "))
 			}
-			if useModel && hr.RefThr == 0 && hr.RstThr == 0 {
+			if useModel && (hr.RefThr == 0 || os.Getenv("RGH_COMPARE_REFTHROTTLE") != "") && hr.RstThr == 0 && !hr.Mutated {
 				res.Distribution["model-compared"]++
 				step, impl, model, err := compareWithModel(driver, hr)
 				// Go's map iteration order (fan-out to two subscriptions of one connection, ...)
